@@ -24,6 +24,7 @@ type goPanicSig struct {
 	val     Value // the panic value (IfaceV)
 	msg     string
 	runtime bool
+	at      string // call chain of the code under test where a runtime panic was raised (diagnostics)
 }
 
 type deferred struct {
@@ -87,7 +88,7 @@ func (c *Ctx) goPanic(msg string, val Value) {
 	if val == nil {
 		val = IfaceV{t: c.shared.errType, v: &ErrV{msg: "runtime error: " + msg, id: c.newErrID()}}
 	}
-	panic(&goPanicSig{val: val, msg: msg, runtime: true})
+	panic(&goPanicSig{val: val, msg: msg, runtime: true, at: c.where()})
 }
 
 // ---------- operand evaluation ----------
